@@ -126,9 +126,19 @@ def coq_run_file(vfile, timeout):
     base = os.path.splitext(os.path.basename(vfile))[0]
     outvo = os.path.join(BUILD, "tmpvo", base + ".vo")
     os.makedirs(os.path.dirname(outvo), exist_ok=True)
+    def big_stack():
+        # case files contain long list literals: Coq's parser and the VM recurse deeply on them
+        import resource
+        soft, hard = resource.getrlimit(resource.RLIMIT_STACK)
+        try:
+            resource.setrlimit(resource.RLIMIT_STACK, (hard, hard))
+        except (ValueError, OSError):
+            pass
     try:
-        rc, out = run(["coqc", "-noglob", "-Q", "theories", "A5", "-Q", "gen", "A5gen", "-o", outvo, vfile],
-                      cwd=COQ, timeout=timeout)
+        p = subprocess.run(["coqc", "-noglob", "-Q", "theories", "A5", "-Q", "gen", "A5gen", "-o", outvo, vfile],
+                           cwd=COQ, env=ENV, stdout=subprocess.PIPE, stderr=subprocess.STDOUT, timeout=timeout,
+                           text=True, errors="replace", preexec_fn=big_stack)
+        rc, out = p.returncode, p.stdout
     except subprocess.TimeoutExpired:
         return 124, "timeout"
     for ext in (".vo", ".vok", ".vos"):
